@@ -412,21 +412,231 @@ theorem counts_total (ss : List ℝ) :
     · show (Hist.countIn false a b ss :: Hist.counts ss (b :: c :: rest)).length = _
       simp [ihl]
 
+theorem counts_length (ss : List ℝ) :
+    ∀ (rest : List ℝ) (a b : ℝ), (Hist.counts ss (a :: b :: rest)).length = (b :: rest).length := by
+  intro rest
+  induction rest with
+  | nil => intro a b; simp [Hist.counts]
+  | cons c rest ih =>
+    intro a b
+    show (Hist.countIn false a b ss :: Hist.counts ss (b :: c :: rest)).length = _
+    simp [ih b c]
+
 /-- **C19, "a histogram's bars are the bin counts of its samples, which are also the values
-    returned to the caller".** The bars drawn are the very pair returned by `hist`; there is one
-    bar per bin; and for increasing edges the bars add up to the number of samples inside
-    `[first edge, last edge]` (no sample in range is lost or counted twice). -/
+    returned to the caller".** The bars drawn are the very pair returned by `hist`; without
+    `weights` / `density` they are the bin counts; there is one bar per bin; and for increasing
+    edges the counts add up to the number of samples inside `[first edge, last edge]` (no sample
+    in range is lost or counted twice). -/
 theorem C19_hist (h : Hist ℝ) :
     h.draw = [.bars h.returned.1 h.returned.2] ∧
+    (h.weights = none → h.density = false →
+      h.returned.1 = (Hist.counts h.samples h.edges).map (fun n : ℕ => (n : ℝ))) ∧
+    (∀ a b rest, h.edges = a :: b :: rest → List.Pairwise (· ≤ ·) h.edges →
+      (Hist.counts h.samples h.edges).length + 1 = h.edges.length ∧
+      (Hist.counts h.samples h.edges).sum
+        = h.samples.countP (fun s => decide (a ≤ s ∧ s ≤ (a :: b :: rest).getLast (by simp)))) := by
+  refine ⟨rfl, ?_, ?_⟩
+  · intro hw hd
+    simp [Hist.returned, Hist.heights, Hist.binValues, hw, hd]
+  · intro a b rest he hp
+    rw [he] at hp
+    obtain ⟨hs, hl⟩ := counts_total h.samples rest a b hp
+    simp only [he]
+    exact ⟨by simp [hl], hs⟩
+
+/-! ### weighted and normalised histograms -/
+
+theorem total_eq_sum (l : List ℝ) : Hist.total l = l.sum := by
+  induction l with
+  | nil => simp [Hist.total]
+  | cons x xs ih => simp [Hist.total, ih]
+
+/-- the weighted count of a bin is the sum of the weights of the samples that fall into it -/
+theorem wsumIn_eq (last : Bool) (a b : ℝ) (sw : List (ℝ × ℝ)) :
+    Hist.wsumIn last a b sw
+      = ((sw.filter fun p => decide (a ≤ p.1 ∧ (if last then p.1 ≤ b else p.1 < b))).map (·.2)).sum := by
+  induction sw with
+  | nil => simp [Hist.wsumIn]
+  | cons p sw ih =>
+    obtain ⟨s, w⟩ := p
+    cases last <;> by_cases h1 : a ≤ s
+    · by_cases h2 : s < b <;> simp [Hist.wsumIn, h1, h2, ih]
+    · simp [Hist.wsumIn, h1, ih]
+    · by_cases h2 : s ≤ b <;> simp [Hist.wsumIn, h1, h2, ih]
+    · simp [Hist.wsumIn, h1, ih]
+
+theorem wsumIn_split (sw : List (ℝ × ℝ)) (a b L : ℝ) (hab : a ≤ b) (hbL : b ≤ L) :
+    Hist.wsumIn false a b sw + Hist.wsumIn true b L sw = Hist.wsumIn true a L sw := by
+  induction sw with
+  | nil => simp [Hist.wsumIn]
+  | cons p sw ih =>
+    obtain ⟨s, w⟩ := p
+    by_cases h1 : a ≤ s <;> by_cases h2 : s < b <;> by_cases h3 : s ≤ L <;> by_cases h4 : b ≤ s <;>
+      simp [Hist.wsumIn, h1, h2, h3, h4] <;> linarith
+
+theorem wcounts_total (sw : List (ℝ × ℝ)) :
+    ∀ (rest : List ℝ) (a b : ℝ), List.Pairwise (· ≤ ·) (a :: b :: rest) →
+      (Hist.wcounts sw (a :: b :: rest)).sum
+        = Hist.wsumIn true a ((a :: b :: rest).getLast (by simp)) sw ∧
+      (Hist.wcounts sw (a :: b :: rest)).length = (b :: rest).length := by
+  intro rest
+  induction rest with
+  | nil =>
+    intro a b _
+    simp [Hist.wcounts]
+  | cons c rest ih =>
+    intro a b hp
+    have hp' : List.Pairwise (· ≤ ·) (b :: c :: rest) := (List.pairwise_cons.1 hp).2
+    obtain ⟨ihs, ihl⟩ := ih b c hp'
+    have hab : a ≤ b := (List.pairwise_cons.1 hp).1 b (by simp)
+    have hlast : (a :: b :: c :: rest).getLast (by simp) = (b :: c :: rest).getLast (by simp) := by
+      simp [List.getLast_cons]
+    have hbl : b ≤ (b :: c :: rest).getLast (by simp) := by
+      have hmem : (b :: c :: rest).getLast (by simp) ∈ b :: c :: rest := List.getLast_mem _
+      rcases List.mem_cons.1 hmem with h | h
+      · rw [h]
+      · exact (List.pairwise_cons.1 hp').1 _ h
+    constructor
+    · show (Hist.wsumIn false a b sw :: Hist.wcounts sw (b :: c :: rest)).sum = _
+      rw [List.sum_cons, ihs, hlast]
+      exact wsumIn_split sw a b _ hab hbl
+    · show (Hist.wsumIn false a b sw :: Hist.wcounts sw (b :: c :: rest)).length = _
+      simp [ihl]
+
+/-- **C19, histogram with `weights=`.** Each bar is the sum of the weights of the samples in its
+    bin; there is one bar per bin; and for increasing edges the bars add up to the sum of the
+    weights of the samples inside `[first edge, last edge]` (no weight is lost or counted twice). -/
+theorem C19_hist_weights (h : Hist ℝ) (ws : List ℝ) (hw : h.weights = some ws) (hd : h.density = false) :
+    h.returned.1 = Hist.wcounts (h.samples.zip ws) h.edges ∧
     (∀ a b rest, h.edges = a :: b :: rest → List.Pairwise (· ≤ ·) h.edges →
       h.returned.1.length + 1 = h.edges.length ∧
-      h.returned.1.sum = h.samples.countP (fun s => decide (a ≤ s ∧ s ≤ (a :: b :: rest).getLast (by simp)))) := by
-  refine ⟨rfl, ?_⟩
+      h.returned.1.sum = (((h.samples.zip ws).filter fun p =>
+          decide (a ≤ p.1 ∧ p.1 ≤ (a :: b :: rest).getLast (by simp))).map (·.2)).sum) := by
+  have hr : h.returned.1 = Hist.wcounts (h.samples.zip ws) h.edges := by
+    simp [Hist.returned, Hist.heights, Hist.binValues, hw, hd]
+  refine ⟨hr, ?_⟩
   intro a b rest he hp
   rw [he] at hp
-  obtain ⟨hs, hl⟩ := counts_total h.samples rest a b hp
-  simp only [Hist.returned, he]
-  exact ⟨by simp [hl], hs⟩
+  obtain ⟨hs, hl⟩ := wcounts_total (h.samples.zip ws) rest a b hp
+  rw [hr, he]
+  refine ⟨by simp [hl], ?_⟩
+  rw [hs, wsumIn_eq]
+  simp
+
+theorem wsumIn_ones (last : Bool) (a b : ℝ) (ss : List ℝ) :
+    Hist.wsumIn last a b (ss.map fun s => (s, (1 : ℝ))) = (Hist.countIn last a b ss : ℝ) := by
+  induction ss with
+  | nil => simp [Hist.wsumIn, Hist.countIn]
+  | cons s ss ih =>
+    unfold Hist.countIn at ih ⊢
+    rw [List.map_cons, List.countP_cons]
+    unfold Hist.wsumIn
+    rw [ih]
+    split_ifs <;> (try simp only [num_add]) <;> push_cast <;> ring
+
+/-- weights all equal to one give the plain counts (so `C19_hist`'s total applies) -/
+theorem C19_hist_unit_weights (ss es : List ℝ) :
+    Hist.wcounts (ss.map fun s => (s, (1 : ℝ))) es = (Hist.counts ss es).map (fun n : ℕ => (n : ℝ)) := by
+  induction es with
+  | nil => simp [Hist.wcounts, Hist.counts]
+  | cons a es ih =>
+    cases es with
+    | nil => simp [Hist.wcounts, Hist.counts]
+    | cons b rest =>
+      cases rest with
+      | nil => simp [Hist.wcounts, Hist.counts, wsumIn_ones]
+      | cons c rest =>
+        show Hist.wsumIn false a b _ :: Hist.wcounts _ (b :: c :: rest)
+          = (Hist.countIn false a b ss :: Hist.counts ss (b :: c :: rest)).map _
+        rw [ih, wsumIn_ones]; simp
+
+theorem wcounts_length (sw : List (ℝ × ℝ)) :
+    ∀ (rest : List ℝ) (a b : ℝ), (Hist.wcounts sw (a :: b :: rest)).length = (b :: rest).length := by
+  intro rest
+  induction rest with
+  | nil => intro a b; simp [Hist.wcounts]
+  | cons c rest ih =>
+    intro a b
+    show (Hist.wsumIn false a b sw :: Hist.wcounts sw (b :: c :: rest)).length = _
+    simp [ih b c]
+
+theorem widths_spec : ∀ (rest : List ℝ) (a b : ℝ),
+    (Hist.widths (a :: b :: rest)).length = (b :: rest).length ∧
+    (List.Pairwise (· < ·) (a :: b :: rest) → ∀ w ∈ Hist.widths (a :: b :: rest), 0 < w) := by
+  intro rest
+  induction rest with
+  | nil =>
+    intro a b
+    refine ⟨by simp [Hist.widths], ?_⟩
+    intro hp w hw
+    have hab : a < b := (List.pairwise_cons.1 hp).1 b (by simp)
+    simp only [Hist.widths, num_sub, List.mem_singleton] at hw
+    rw [hw]; linarith
+  | cons c rest ih =>
+    intro a b
+    obtain ⟨il, ip⟩ := ih b c
+    refine ⟨by simp [Hist.widths] at il ⊢; exact il, ?_⟩
+    intro hp w hw
+    have hab : a < b := (List.pairwise_cons.1 hp).1 b (by simp)
+    have hp' := (List.pairwise_cons.1 hp).2
+    simp only [Hist.widths, num_sub, List.mem_cons] at hw
+    rcases hw with hw | hw
+    · rw [hw]; linarith
+    · exact ip hp' w (by simpa [Hist.widths] using hw)
+
+theorem density_sum (T : ℝ) : ∀ (vals ws : List ℝ), vals.length = ws.length → (∀ w ∈ ws, w ≠ 0) →
+    (List.zipWith (· * ·) (List.zipWith (fun v w => v / w / T) vals ws) ws).sum = vals.sum / T := by
+  intro vals
+  induction vals with
+  | nil => intro ws _ _; simp
+  | cons v vals ih =>
+    intro ws hl hw
+    cases ws with
+    | nil => simp at hl
+    | cons w ws =>
+      have hw0 : w ≠ 0 := hw w (by simp)
+      have := ih ws (by simpa using hl) (fun x hx => hw x (by simp [hx]))
+      simp only [List.zipWith_cons_cons, List.sum_cons, this]
+      field_simp
+
+/-- **C19, histogram with `density=True`.** Each bar is its bin value (count, resp. sum of weights)
+    divided by the bin width and by the total of all bin values; for strictly increasing edges and
+    a non-zero total (some sample in range) the bars integrate to one: Σ height·width = 1. -/
+theorem C19_hist_density (h : Hist ℝ) (hd : h.density = true) :
+    h.returned.1 = List.zipWith (fun v w => v / w / h.binValues.sum) h.binValues (Hist.widths h.edges) ∧
+    (List.Pairwise (· < ·) h.edges → h.binValues.sum ≠ 0 →
+      h.returned.1.length + 1 = h.edges.length ∧
+      (List.zipWith (· * ·) h.returned.1 (Hist.widths h.edges)).sum = 1) := by
+  have hr : h.returned.1
+      = List.zipWith (fun v w => v / w / h.binValues.sum) h.binValues (Hist.widths h.edges) := by
+    simp [Hist.returned, Hist.heights, hd, Hist.densityOf, total_eq_sum]
+  refine ⟨hr, ?_⟩
+  intro hp ht
+  have hlen : ∀ a b rest, h.edges = a :: b :: rest → h.binValues.length = (b :: rest).length := by
+    intro a b rest he
+    unfold Hist.binValues
+    cases h.weights with
+    | none => simp only [he, List.length_map]; exact counts_length h.samples rest a b
+    | some ws => simp only [he]; exact wcounts_length _ rest a b
+  cases he : h.edges with
+  | nil =>
+    exfalso; apply ht
+    unfold Hist.binValues; cases h.weights <;> simp [he, Hist.counts, Hist.wcounts]
+  | cons a es =>
+    cases es with
+    | nil =>
+      exfalso; apply ht
+      unfold Hist.binValues; cases h.weights <;> simp [he, Hist.counts, Hist.wcounts]
+    | cons b rest =>
+      have hl := hlen a b rest he
+      obtain ⟨wl, wp⟩ := widths_spec rest a b
+      rw [he] at hp
+      have hne : ∀ w ∈ Hist.widths (a :: b :: rest), w ≠ 0 := fun w hw => ne_of_gt (wp hp w hw)
+      rw [hr, he]
+      refine ⟨?_, ?_⟩
+      · simp [List.length_zipWith, hl, wl]
+      · rw [density_sum _ _ _ (by rw [hl, wl]) hne]
+        exact div_self ht
 
 /-! ### labels -/
 
@@ -488,7 +698,7 @@ example : List.Pairwise (· ≤ ·) ([0, 1, 3] : List ℝ) := by
 /-- a plot whose domain exists (hypothesis of C19_domain) and a non-trivial permutation of its
     objects (hypothesis of C19_order_independent) -/
 def exP : Plot ℝ :=
-  { objs := [.dataset exD, .histogram ⟨[1, 2], .edges [0, 1, 3], ""⟩], errorBars := true,
+  { objs := [.dataset exD, .histogram ⟨[1, 2], .edges [0, 1, 3], "", none, false⟩], errorBars := true,
     residuals := false, legend := false, xname := "", xunit := "", yname := "", yunit := "",
     title := "", xrange := none }
 example : ∃ lo hi, exP.domain = some (lo, hi) := by
@@ -496,6 +706,15 @@ example : ∃ lo hi, exP.domain = some (lo, hi) := by
   simp [exP, Plot.domain, Obj.xrange, DataSet.xrange, exD, Hist.xrange, Hist.edges, Hist.edgesOf,
     minL, maxL, min2_eq, max2_eq]
 example : exP.objs.Perm exP.objs.reverse := (List.reverse_perm _).symm
+/-- a weighted, normalised histogram with strictly increasing edges and a non-zero total
+    (hypotheses of C19_hist_weights / C19_hist_density) -/
+noncomputable def exH : Hist ℝ := ⟨[1, 2], .edges [0, 1, 3], "", some [1/2, 2], true⟩
+example : exH.density = true ∧ exH.weights = some [1/2, 2] ∧ List.Pairwise (· < ·) exH.edges ∧
+    exH.binValues.sum ≠ 0 := by
+  refine ⟨rfl, rfl, ?_, ?_⟩
+  · simp [exH, Hist.edges, Hist.edgesOf, List.pairwise_cons]
+  · simp [exH, Hist.binValues, Hist.edges, Hist.edgesOf, Hist.wcounts, Hist.wsumIn]
+    norm_num
 end examples
 
 end QExPy.Plot
